@@ -76,15 +76,21 @@ class XmlTableGen:
         rng = self.rng
         lang = lang or rng.choice(self.d['langs'])
         pub = lang['pub']
-        root = bytes.fromhex(pub['root'])
         tags = self.rows(lang, 'tags')
+        root = bytes.fromhex(pub['root'])
+        # the registered root of some languages (ActiveSync, AirSync) is not an element of the
+        # language: real documents of those start with one of its elements
+        root_row = next((t for t in tags if bytes.fromhex(t[0]) == root), None)
+        if root_row is None:
+            root_row = rng.choice(tags)
+            root = bytes.fromhex(root_row[0])
         attrs = self.rows(lang, 'attrs')
         vals = self.rows(lang, 'values')
         ns = self.rows(lang, 'ns')
         nsmap = {r[1]: bytes.fromhex(r[0]) for r in ns} if ns else {}
         head = b'<?xml version="1.0"?>'
         r = rng.random()
-        if pub['xml'] and r < 0.6:
+        if pub['xml'] and (r < 0.6 or bytes.fromhex(pub['root']) != root):
             head += b'<!DOCTYPE ' + root + b' PUBLIC "' + bytes.fromhex(pub['xml']) + b'" "' + bytes.fromhex(pub['dtd'] or '') + b'">'
         elif pub['dtd'] and r < 0.8:
             head += b'<!DOCTYPE ' + root + b' SYSTEM "' + bytes.fromhex(pub['dtd']) + b'">'
@@ -118,7 +124,7 @@ class XmlTableGen:
             return out + b'/>'
 
         body = b'<' + root
-        if 0 in nsmap:
-            body += b' xmlns="' + nsmap[0] + b'"'
-        body += b'>' + b''.join(elt(1, 0) for _ in range(rng.randint(0, n))) + b'</' + root + b'>'
+        if root_row[1] in nsmap:
+            body += b' xmlns="' + nsmap[root_row[1]] + b'"'
+        body += b'>' + b''.join(elt(1, root_row[1]) for _ in range(rng.randint(0, n))) + b'</' + root + b'>'
         return head + body
